@@ -107,7 +107,7 @@ impl SwiftField for Field53B {
             // Two lines: first is party_identifier, second is location
             if !lines[0].is_empty() {
                 party_identifier =
-                    Some(parse_max_length(lines[0], 34, "Field53B party_identifier")?);
+                    Some(parse_max_length(lines[0], 37, "Field53B party_identifier")?);
             }
             if !lines[1].is_empty() {
                 location = Some(parse_max_length(lines[1], 35, "Field53B location")?);
@@ -123,7 +123,7 @@ impl SwiftField for Field53B {
                         .all(|c| c.is_ascii_uppercase() || c.is_ascii_digit()));
 
             if is_party_identifier {
-                party_identifier = Some(parse_max_length(line, 34, "Field53B party_identifier")?);
+                party_identifier = Some(parse_max_length(line, 37, "Field53B party_identifier")?);
             } else {
                 location = Some(parse_max_length(line, 35, "Field53B location")?);
             }
